@@ -105,6 +105,14 @@ def evaluate(r, trains, edges, name, kw, ivals, be, rank=(), indices=None):
                     case, "a profile", "%s: %s" % (type(e).__name__, e),
                     "profile function raised on valid input", rank)
         return
+    if name == "order":
+        try:
+            if float(p.integral()[1]) == 0.0:
+                # no spike at all: the statement defines no value for 0/0 (only SPIKE-Sync is
+                # 1 by convention); C18 requires the result to be finite
+                return
+        except Exception:
+            pass
     for iv in ivals:
         r.evaluations += 1
         try:
